@@ -375,6 +375,23 @@ func (c *fnCtx) externDecl(key string, at ast.Node) *ast.FuncDecl {
 	return nil
 }
 
+// externDeclQuiet: like externDecl, nil when the source is not found
+func (c *fnCtx) externDeclQuiet(key string) *ast.FuncDecl {
+	i := strings.IndexByte(key, '.')
+	if i < 0 {
+		return nil
+	}
+	pkg, name := key[:i], key[i+1:]
+	for _, f := range c.g.foreignFiles(c, pkg) {
+		for _, d := range f.Decls {
+			if fd, ok := d.(*ast.FuncDecl); ok && fd.Recv == nil && fd.Name.Name == name {
+				return fd
+			}
+		}
+	}
+	return nil
+}
+
 // paramReadOnly: the slice parameter name of fd is only measured, indexed for reading and ranged
 // over (so an argument can be handed over by value)
 func paramReadOnly(fd *ast.FuncDecl, name string) bool {
@@ -486,6 +503,21 @@ func unifyAst(p ast.Expr, a *fnType, tps map[string]ast.Expr, sub map[string]*fn
 	}
 }
 
+// externHandsBack: fd is func F[...](s S) S with a body that is not read-only on s
+func externHandsBack(fd *ast.FuncDecl) bool {
+	if fd.Type.Params == nil || len(fd.Type.Params.List) != 1 || len(fd.Type.Params.List[0].Names) != 1 {
+		return false
+	}
+	if fd.Type.Results == nil || len(fd.Type.Results.List) != 1 || len(fd.Type.Results.List[0].Names) > 1 {
+		return false
+	}
+	pt, rt := fd.Type.Params.List[0].Type, fd.Type.Results.List[0].Type
+	if src(pt) != src(rt) {
+		return false
+	}
+	return !paramReadOnly(fd, fd.Type.Params.List[0].Names[0].Name)
+}
+
 // externCall: pkg.F(args) used for its results, pkg.F declared with extern:pkg.F: a function
 // argument pkg_F : args -> res (results).  The result types are read from the source of the other
 // package (module or GOROOT); a slice argument is handed over by value, which is exact because
@@ -510,6 +542,30 @@ func (c *fnCtx) externCall(key string, v *ast.CallExpr, pre *[]fnBind) ([]string
 	}
 	if len(pnames) != len(v.Args) || v.Ellipsis.IsValid() {
 		c.lostAt(v, "call of %s (arity)", key)
+	}
+	// pkg.F(vs) with ONE argument, a slice parameter of this function with a view, F of type
+	// func(S) S and not read-only on it (slices.Compact): F may store into the argument's array
+	// and hands back a slice of the SAME type -- taken to be a window of that array, as the
+	// functions of package slices with this signature document.  The function argument gets the
+	// elements and the view and answers the result's view and the new elements:
+	//     pkg_F : list T -> view -> res (view * list T)
+	if len(v.Args) == 1 && externHandsBack(fd) {
+		if xv := c.plainVar(v.Args[0]); xv != nil && xv.typ.k == "slice" && xv.view != nil && !xv.noElems && c.fat[xv] == nil && xv.typ.elem.k != "slice" {
+			tset := map[string]bool{}
+			xv.typ.mentionsT(tset)
+			typ := arrowArg(xv.typ.coq()) + " -> view -> res (view * " + xv.typ.coq() + ")"
+			if x.typ.name != "?" && x.typ.name != typ {
+				c.lostAt(v, "second call of %s with different argument types", key)
+			}
+			x.typ = &fnType{k: "raw", name: typ}
+			for tp := range tset {
+				x.typ.params = append(x.typ.params, &fnType{k: "elem", name: tp})
+			}
+			c.setExtraType(key, typ, tset)
+			t := c.tmp()
+			*pre = append(*pre, fnBind{pat: tuple([]string{t, xv.name}), m: tRaw{x.name + " " + xv.name + " " + xv.view.name}, effect: true})
+			return []string{t}, []*fnType{tyView}
+		}
 	}
 	tps := map[string]ast.Expr{}
 	if fd.Type.TypeParams != nil {
